@@ -101,15 +101,18 @@ Definition kind_ok (n : name) (o : ostream) : Prop :=
 Lemma stream_ok_kind fs n o : stream_ok F P fs n o -> kind_ok n o.
 Proof. unfold stream_ok, kind_ok. destruct (os_kind o); tauto. Qed.
 
+Lemma cmd_target_sink c t : cmd_target E c = Some t -> c_sink (e_spec E c) = Some t.
+Proof. unfold cmd_target. destruct (c_drain (e_spec E c)); [auto|discriminate]. Qed.
+
 Lemma target_unique n1 o1 n2 o2 t : kind_ok n1 o1 -> kind_ok n2 o2 ->
   stream_target E n1 o1 = Some t -> stream_target E n2 o2 = Some t -> n1 = n2.
 Proof.
   unfold kind_ok, stream_target. intros K1 K2 T1 T2.
   destruct (os_kind o1), (os_kind o2).
   - congruence.
-  - injection T1 as ->. exfalso. eapply (af_file _ _ _ _ AF n2 t); eauto. apply (af_PQ _ _ _ _ AF); auto.
-  - injection T2 as ->. exfalso. eapply (af_file _ _ _ _ AF n1 t); eauto. apply (af_PQ _ _ _ _ AF); auto.
-  - destruct (Z.eq_dec n1 n2) as [|Hne]; auto. exfalso.
+  - apply cmd_target_sink in T2. injection T1 as ->. exfalso. eapply (af_file _ _ _ _ AF n2 t); eauto. apply (af_PQ _ _ _ _ AF); auto.
+  - apply cmd_target_sink in T1. injection T2 as ->. exfalso. eapply (af_file _ _ _ _ AF n1 t); eauto. apply (af_PQ _ _ _ _ AF); auto.
+  - apply cmd_target_sink in T1. apply cmd_target_sink in T2. destruct (Z.eq_dec n1 n2) as [|Hne]; auto. exfalso.
     eapply (af_pipe _ _ _ _ AF n1 n2 t); eauto. apply (af_PQ _ _ _ _ AF); auto.
 Qed.
 
@@ -173,7 +176,7 @@ Proof.
   intros (Hnd & Hs) Hq Hl Hc m o Hin Ht. pose proof (stream_ok_kind _ _ _ (Hs _ _ Hin)) as Hk.
   unfold kind_ok, stream_target in *. destruct (os_kind o).
   - injection Ht as ->. eapply (af_file _ _ _ _ AF c t); eauto.
-  - destruct (Z.eq_dec m c) as [->|Hne].
+  - apply cmd_target_sink in Ht. destruct (Z.eq_dec m c) as [->|Hne].
     + apply In_alookup in Hin; auto. congruence.
     + eapply (af_pipe _ _ _ _ AF m c t); eauto.
 Qed.
@@ -185,7 +188,7 @@ Proof.
   intros (Hnd & Hs) Hf Hl m o Hin Ht. pose proof (stream_ok_kind _ _ _ (Hs _ _ Hin)) as Hk.
   unfold kind_ok, stream_target in *. destruct (os_kind o).
   - injection Ht as ->. apply In_alookup in Hin; auto. congruence.
-  - eapply (af_file _ _ _ _ AF m n); eauto. apply (af_PQ _ _ _ _ AF); auto.
+  - apply cmd_target_sink in Ht. eapply (af_file _ _ _ _ AF m n); eauto. apply (af_PQ _ _ _ _ AF); auto.
 Qed.
 
 (* ---- deliver ---- *)
@@ -210,7 +213,12 @@ Proof.
            ++ apply Z.eqb_eq in Ent. subst t. auto.
            ++ rewrite app_nil_r; auto.
         -- rewrite Eo. intros off' H. discriminate.
-    + intros H Hp.
+    + intros H Hp. unfold cmd_target. destruct (c_drain (e_spec E n)) eqn:Edr; cbv beta iota.
+      2:{ injection H as <- <-. cbn [os_kind os_buf tgt_is].
+          assert (Hs : forall b : bool, st_outs (if b then s else set_unmod s) = st_outs s /\ st_ins (if b then s else set_unmod s) = st_ins s /\
+                        st_fs (if b then s else set_unmod s) = st_fs s /\ st_log (if b then s else set_unmod s) = st_log s) by (intros []; auto).
+          destruct (Hs (is_synced E s n)) as (S1 & S2 & S3 & S4). rewrite S1, S2, S3, S4.
+          split; [auto|split; [auto|split; [intros t; rewrite app_nil_r; auto|split; [auto|split; [auto|split; auto]]]]]. }
       set (s1 := match c_sink (e_spec E n) with Some t => set_fs s (fs_append (st_fs s) t data) | None => s end) in *.
       assert (H1 : st_outs s1 = st_outs s /\ st_ins s1 = st_ins s /\ st_log s1 = st_log s /\
                    forall t, fs_get (st_fs s1) t = fs_get (st_fs s) t ++ (if tgt_is (c_sink (e_spec E n)) t then data else [])).
@@ -308,7 +316,13 @@ Lemma flush_named_finv s n o : finv s -> alookup n (st_outs s) = Some o ->
 Proof.
   intros Hi Hl. unfold flush_named. destruct (flush_ostream E s n o) as [s1 o1] eqn:Ef.
   destruct (flush_ostream_files _ _ _ _ _ Ef (finv_lookup_ok _ _ _ Hi Hl)) as (A1 & A2 & A3 & A4 & A5 & A6 & A7).
-  split; [|split; [|split; [|split]]].
+  cbv zeta. set (s2 := set_outs s1 (aset n o1 (st_outs s1))).
+  assert (Hsf : same_files E s2 (if os_err o1 then print_errorf E s2 else s2)) by apply sf_if_print_errorf.
+  destruct Hsf as (S1 & S2 & S3 & S4).
+  assert (Hfin : finv (if os_err o1 then print_errorf E s2 else s2) <-> finv s2).
+  { split; apply finv_same; unfold same_files; [split; [symmetry; exact S1|split; [symmetry; exact S2|split; [symmetry; exact S3|intros; symmetry; apply S4]]]|auto]. }
+  rewrite S2, S3. subst s2.
+  split; [apply Hfin|split; [|split; [|split]]].
   - eapply (finv_update s n o s1 o1 [] (os_buf o)); eauto.
     + intros t. rewrite A4. destruct (tgt_is _ _); rewrite app_nil_r; auto.
     + rewrite A6, !app_nil_r. auto.
@@ -359,7 +373,7 @@ Proof.
   intros Hi. unfold flush_all.
   destruct (flush_streams_finv (map fst (st_outs s)) s Hi) as (C1 & C2 & C3 & C4).
   set (s1 := flush_streams E s _) in *.
-  assert (Hsf : exists s', fst (let (s', b) := flush_stdout E s1 in if b then (s', true) else (print_errorf E s', false)) = s' /\ same_files E s1 s').
+  assert (Hsf : exists s', fst (let (s', b) := flush_stdout E s1 in if b then (s', negb (any_failed (st_outs s'))) else (print_errorf E s', false)) = s' /\ same_files E s1 s').
   { pose proof (sf_flush_stdout E s1) as H. destruct (flush_stdout E s1) as [s2 [|]]; cbn [fst] in *; eexists; split; eauto.
     eapply sf_trans; eauto. apply sf_flush_stdout. }
   destruct Hsf as (s' & -> & (D1 & D2 & D3 & D4)).
@@ -391,12 +405,19 @@ Proof.
             apply pend_none. intros m o2 Hin2 Ht2. pose proof (stream_ok_kind _ _ _ (Hs _ _ Hin2)) as Hk2.
             unfold kind_ok, stream_target in Hk2, Ht2. destruct (os_kind o2) eqn:Ek2.
             * injection Ht2 as ->. eapply (af_file _ _ _ _ AF c t); eauto.
-            * destruct (Z.eq_dec m c) as [->|Hne].
+            * apply cmd_target_sink in Ht2. destruct (Z.eq_dec m c) as [->|Hne].
               -- apply In_alookup in Hin2; auto. assert (o2 = o) by congruence. subst. congruence.
               -- eapply (af_pipe _ _ _ _ AF m c t); eauto.
-          + rewrite (pend_lookup _ c o t); auto.
-            * intros; eapply stream_ok_kind; eauto.
-            * unfold stream_target. rewrite Ek. auto.
+          + destruct (cmd_target E c) as [t1|] eqn:Ect.
+            * assert (t1 = t) by (apply cmd_target_sink in Ect; congruence). subst t1.
+              rewrite (pend_lookup _ c o t); auto.
+              -- intros; eapply stream_ok_kind; eauto.
+              -- unfold stream_target. rewrite Ek. auto.
+            * apply pend_none. intros m o2 Hin2 Ht2. pose proof (stream_ok_kind _ _ _ (Hs _ _ Hin2)) as Hk2.
+              unfold kind_ok, stream_target in Hk2, Ht2. destruct (os_kind o2) eqn:Ek2.
+              -- injection Ht2 as ->. eapply (af_file _ _ _ _ AF c t); eauto.
+              -- destruct (Z.eq_dec m c) as [->|Hne]; [congruence|]. apply cmd_target_sink in Ht2.
+                 eapply (af_pipe _ _ _ _ AF m c t); eauto.
         - apply pend_none. eapply no_stream_for_sink; eauto. split; auto. }
       rewrite Hp, !app_nil_r. auto.
   - repeat split; auto.
@@ -534,7 +555,7 @@ Proof.
       intros H; injection H as <- <-. split; [|intros n0 H0; injection H0 as <-; apply Hlk].
       apply finv_add'; auto.
       * unfold stream_target. cbn [os_kind]. intros t Ht.
-        apply pend_none. destruct Hi6. eapply no_stream_for_sink; eauto.
+        apply pend_none. destruct Hi6. eapply no_stream_for_sink; eauto. apply cmd_target_sink; auto.
 Qed.
 
 Lemma write_ostream_files s n o p s' o' :
@@ -566,9 +587,23 @@ Proof.
     rewrite B1, B2. repeat split; auto. intros t. rewrite B4. auto.
 Qed.
 
+Lemma finv_add_synced s n : finv s -> finv (add_synced s n).
+Proof. apply finv_fields; auto. Qed.
+
+Lemma getline_file_finv s n s' oc : finv s -> getline_file E s n = (s', oc) -> finv s'.
+Proof.
+  intros Hi0. unfold getline_file. set (s0 := if sink_busy E s n then set_unmod s else s).
+  assert (Hi : finv s0) by (subst s0; apply (finv_same _ _ (sf_if_unmod E _ _)); auto). clearbody s0.
+  destruct (amem n (st_outs s0)); [intros H; injection H as <- <-; auto|].
+  destruct (alookup n (st_ins s0)); [intros H; injection H as <- <-; apply scan_stream_finv; auto|].
+  destruct (alookup n (st_fs s0)); intros H; injection H as <- <-.
+  - apply scan_stream_finv. apply finv_set_ins. auto.
+  - apply finv_add_obs. auto.
+Qed.
+
 Lemma step_finv s o s' oc : finv s -> op_within F P Q o -> step E s o = (s', oc) -> finv s'.
 Proof.
-  intros Hi Hw. destruct o as [d ps|n|[n|]|c|n|c| |code|]; cbn [step].
+  intros Hi Hw. destruct o as [d ps|n|[n|]|c|n|c| |code| |n]; cbn [step].
   - (* Print *)
     destruct (get_output_stream E s d) as [s1 r] eqn:Eg.
     assert (Hw' : match d with DRedir RPipe c => P c | DRedir _ n => F n | _ => True end).
@@ -617,11 +652,7 @@ Proof.
     destruct (wait_result _ _) as [code err]. intros H; injection H as <- <-.
     apply finv_add_obs. apply finv_if_print_errorf. eapply finv_same; [exact Hsf4|]. eapply finv_same; [exact Hsf3|]. auto.
   - (* getline < file *)
-    destruct (amem n (st_outs s)); [intros H; injection H as <- <-; auto|].
-    destruct (alookup n (st_ins s)); [intros H; injection H as <- <-; apply scan_stream_finv; auto|].
-    destruct (alookup n (st_fs s)); intros H; injection H as <- <-.
-    + apply scan_stream_finv. apply finv_set_ins. auto.
-    + apply finv_add_obs. auto.
+    apply getline_file_finv; auto.
   - (* cmd | getline *)
     cbn [op_within] in Hw.
     destruct (amem c (st_outs s)) eqn:Em; [intros H; injection H as <- <-; auto|]. apply amem_false_lookup in Em.
@@ -634,6 +665,11 @@ Proof.
   - intros H; injection H as <- <-. apply finv_add_obs. eapply finv_same; [apply sf_flush_stdout|auto].
   - intros H; injection H as <- <-. auto.
   - intros H; injection H as <- <-. auto.
+  - (* wait for a file *)
+    destruct (amem n (st_outs s)); [intros H; injection H as <- <-; auto|].
+    destruct (negb (amem n (st_ins s)) && negb (amem n (st_fs s))).
+    + intros H; injection H as <- <-. apply (finv_same _ _ (sf_if_unmod E true _)); auto.
+    + apply getline_file_finv. apply finv_add_synced; auto.
 Qed.
 
 Lemma exec_finv ops : forall s s' r, finv s -> Forall (op_within F P Q) ops -> exec E s ops = (s', r) -> finv s'.
